@@ -578,9 +578,56 @@ def rule_unit18(repo, tier):
     return res
 
 
+@guarded
+def rule_ordflow(repo, tier):
+    """Option plumbing of the norm order: every function that takes `ord` hands it to EVERY distance it computes - the one that ranks the neighbours as well as
+    the one that is compared with the radius.  A second distance built without it (square().sum(), a norm without ord=) silently ranks by the Euclidean norm
+    whatever the caller chose; invisible for the default ord=2.  homo2cart's zero-division guard clamps |w| at the smallest normal number (finfo.tiny): any
+    larger floor (eps, a literal) rescales points whose homogeneous coordinate is small but representable."""
+    res = RuleResult('C18.ORD', 'knn / nbr_filter / knn_filter: every distance computed in a function with an `ord` parameter takes that ord; homo2cart floors |w| at '
+                     'finfo.tiny only', floor=4)
+    for q, f in repo.module(GEO).functions.items():
+        if 'ord' not in f.params:
+            continue
+        norms = [c for c in ast.walk(f.node) if isinstance(c, ast.Call) and (dotted(c.func) or (c.func.attr if isinstance(c.func, ast.Attribute) else '')).split('.')[-1]
+                 in ('norm', 'vector_norm', 'cdist')]
+        with_ord = [c for c in norms if any(k.arg in ('ord', 'p') and isinstance(k.value, ast.Name) and k.value.id == 'ord' for k in c.keywords) or
+                    any(isinstance(a_, ast.Name) and a_.id == 'ord' for a_ in c.args)]
+        # hand-rolled Euclidean distances: (..).square().sum(..) / (.. ** 2).sum(..) / (..*..).sum(..).sqrt()
+        hand = [c for c in ast.walk(f.node) if isinstance(c, ast.Call) and isinstance(c.func, ast.Attribute) and c.func.attr == 'sum' and
+                ((isinstance(c.func.value, ast.Call) and isinstance(c.func.value.func, ast.Attribute) and c.func.value.func.attr in ('square', 'abs')) or
+                 (isinstance(c.func.value, ast.BinOp) and isinstance(c.func.value.op, ast.Pow)))]
+        bad = [c for c in norms if c not in with_ord] + hand
+        res.inst({'function': f.fq, 'distances with ord': len(with_ord), 'distances without ord': [src(c)[:40] for c in bad]}, f.fq)
+        if not with_ord and not bad:
+            # the function forwards ord to a callee: some call must pass it on
+            if not any(isinstance(c, ast.Call) and (any(k.arg in ('ord', 'p') and isinstance(k.value, ast.Name) and k.value.id == 'ord' for k in c.keywords) or
+                                                    any(isinstance(a_, ast.Name) and a_.id == 'ord' for a_ in c.args)) for c in ast.walk(f.node)):
+                res.add(Finding('C18.ORD', f, '%s accepts `ord` but hands it to no distance computation' % q, construct='ord not used'))
+        for c in bad:
+            res.add(Finding('C18.ORD', f, '%s computes the distance `%s` without its `ord` option: neighbours are ranked / counted in the Euclidean norm whatever norm the '
+                            'caller asked for' % (q, src(c)[:50]), node=c, construct='distance without ord|' + norm_construct(c, f.node)))
+    h = repo.func(GEO, 'homo2cart')
+    clamps = [c for c in ast.walk(h.node) if isinstance(c, ast.Call) and (dotted(c.func) or (c.func.attr if isinstance(c.func, ast.Attribute) else '')).split('.')[-1]
+              in ('clamp', 'clamp_', 'clamp_min', 'clamp_min_', 'clip', 'maximum')]
+    defs = {n.targets[0].id: n.value for n in ast.walk(h.node) if isinstance(n, ast.Assign) and len(n.targets) == 1 and isinstance(n.targets[0], ast.Name)}
+    for c in clamps:
+        lo = next((k.value for k in c.keywords if k.arg == 'min'), c.args[0] if c.args and not (dotted(c.func) or '').startswith('torch.') else (c.args[1] if len(c.args) > 1 else None))
+        e = lo
+        if isinstance(e, ast.Name) and e.id in defs:
+            e = defs[e.id]
+        okg = isinstance(e, ast.Attribute) and e.attr in ('tiny', 'smallest_normal')
+        res.inst({'function': h.fq, 'zero-division floor': src(lo)[:40] if lo is not None else None, 'is the smallest normal number': okg}, (h.fq, src(c)[:50]))
+        if not okg:
+            res.add(Finding('C18.ORD', h, 'homo2cart floors the homogeneous coordinate with `%s`: a representable |w| below that floor (but far above the smallest normal number) is '
+                            'replaced, and homo2cart(s * cart2homo(p)) is no longer p for small s' % (src(e)[:40] if e is not None else '?'), node=c,
+                            construct='homogeneous floor'))
+    return res
+
+
 def rules(repo, tier):
     from ..optional import rule_optional
     from ..mode import mode_rules
     from ..callsig import rule_callsig
     from ..docsig import rule_docsig
-    return [rule_idx(repo, tier), rule_sign(repo, tier), rule_fwd(repo, tier), rule_memo18(repo, tier), rule_self(repo, tier), rule_rankidx(repo, tier), rule_count(repo, tier), rule_errnorm(repo, tier), rule_kentries(repo, tier), rule_unit18(repo, tier), rule_optional(repo, 'C18.OPT', ['pypose.function.geometry'])] + mode_rules(repo, 'C18', ['pypose.function.geometry']) + [rule_callsig(repo, 'C18.SIG', ['pypose.function.geometry']), rule_docsig(repo, 'C18.DOC', ['pypose.function.geometry'])]
+    return [rule_idx(repo, tier), rule_sign(repo, tier), rule_fwd(repo, tier), rule_memo18(repo, tier), rule_self(repo, tier), rule_rankidx(repo, tier), rule_count(repo, tier), rule_errnorm(repo, tier), rule_kentries(repo, tier), rule_unit18(repo, tier), rule_ordflow(repo, tier), rule_optional(repo, 'C18.OPT', ['pypose.function.geometry'])] + mode_rules(repo, 'C18', ['pypose.function.geometry']) + [rule_callsig(repo, 'C18.SIG', ['pypose.function.geometry']), rule_docsig(repo, 'C18.DOC', ['pypose.function.geometry'])]
